@@ -245,7 +245,8 @@ pub fn cmd_matrix(a: &[String]) {
         "c11" => {
             // (a) every hub message × sender while paused, with and without legacy entries, and with
             // an ownership nomination pending (AcceptOwnership is itself blocked by the pause)
-            for (legacy, pending) in [(false, false), (true, false), (false, true), (true, true)] {
+            // legacy: 0 = none, 1 = three entries, 2 = the same with empty (amount 0) entries first in key order
+            for (legacy, pending) in [(0, false), (1, false), (0, true), (1, true), (2, false)] {
                 for op in genesis(&[201, 202, 203]) {
                     out.step(&op);
                 }
@@ -261,10 +262,16 @@ pub fn cmd_matrix(a: &[String]) {
                     // still run against a paused hub
                     out.step(&tx(NOMINEE, HUB, Call::Hub(HubMsg::UParams(None, None, None, None, Some(true), None))));
                 }
-                if legacy {
+                if legacy == 1 {
                     out.step(&Op::Env(EnvOp::Legacy(5, 1, 42)));
                     out.step(&Op::Env(EnvOp::Legacy(6, 1, 17)));
                     out.step(&Op::Env(EnvOp::Legacy(7, 2, 5)));
+                }
+                if legacy == 2 {
+                    out.step(&Op::Env(EnvOp::Legacy(5, 1, 0)));
+                    out.step(&Op::Env(EnvOp::Legacy(6, 1, 0)));
+                    out.step(&Op::Env(EnvOp::Legacy(7, 1, 17)));
+                    out.step(&Op::Env(EnvOp::Legacy(8, 2, 5)));
                 }
                 out.step(&Op::Save);
                 for (target, call, funds) in all_messages() {
